@@ -65,7 +65,8 @@ def observe(case):
     shape = ds.value.shape
     try:
         if case['op'] == 'slice':
-            sl = tuple(slice(_bound(d['a']), _bound(d['b'])) for d in dims)
+            # a unit step can be omitted or written out: same selection (d['step'] is None or 1, default None)
+            sl = tuple(slice(_bound(d['a']), _bound(d['b']), d.get('step')) for d in dims)
             res = ds[sl if len(sl) > 1 else sl[0]]
         else:
             res = ds.squeeze()
@@ -135,7 +136,8 @@ def vkey(case, problem, exp=None, obs=None):
         off = [d for d, e, o in zip(dims, exp, obs['dims'])
                if list(e['cells']) != o['cells'] or (not e.get('binsFree', e.get('free')) and list(e['bins']) != o['bins'])]
         dims = off or dims
-    bad = ['%s:start-%s:stop-%s' % (d['kind'], _cls(_bound(d['a']), d['n']), _cls(_bound(d['b']), d['n'])) for d in dims]
+    bad = ['%s:start-%s:stop-%s%s' % (d['kind'], _cls(_bound(d['a']), d['n']), _cls(_bound(d['b']), d['n']),
+                                      ':step-1' if d.get('step') == 1 else '') for d in dims]
     return 'C09/slice/' + how + '/' + '|'.join(sorted(set(bad)))
 
 
@@ -230,11 +232,15 @@ def run_c09(ctx):
                 continue
             case = case_of_state(st)
             n_replayed += 1
-            obs, problem = observe(case)
             exp = expected_to_obs(st)
-            if problem or not agrees(exp, obs, case['op']):
-                ctx.violation(vkey(case, problem, exp['dims'], obs), problem or 'observed %s, Slice.tla expects %s' % (obs, exp), case,
-                              module='conf_slice')
+            variants = [case]
+            if case['op'] == 'slice':
+                variants.append(dict(case, dims=[dict(d, step=1) for d in case['dims']]))
+            for vcase in variants:
+                obs, problem = observe(vcase)
+                if problem or not agrees(exp, obs, vcase['op']):
+                    ctx.violation(vkey(vcase, problem, exp['dims'], obs), problem or 'observed %s, Slice.tla expects %s' % (obs, exp), vcase,
+                                  module='conf_slice')
             nontrivial = (not exp['empty']) if case['op'] == 'slice' else len(exp['dims']) < len(case['dims'])
             if nontrivial:
                 ctx.distinct((case['op'],) + tuple((d['n'], d['kind'], _cls(d['a'], d['n']), _cls(d['b'], d['n'])) for d in case['dims']))
@@ -263,7 +269,7 @@ def run_c09(ctx):
                 n = rng.randint(1, 6)
                 dims.append(dict(n=n, kind=rng.choice(['edges', 'centres']),
                                  a=rng.choice([None] + list(range(-n - 2, n + 3))),
-                                 b=rng.choice([None] + list(range(-n - 2, n + 3)))))
+                                 b=rng.choice([None] + list(range(-n - 2, n + 3))), step=rng.choice([None, 1])))
         else:
             kind_none = rng.random() < 0.3
             dims = [dict(n=rng.choice([1, 1, 2, 3]), kind='none' if kind_none else rng.choice(['edges', 'centres']),
